@@ -238,6 +238,7 @@ func (w *World) load() error {
 				if len(parts) >= 2 {
 					h.Prop = parts[1]
 				}
+				tStrLen, tUnwind, tPaths := 0, 0, 0
 				if fd.Doc != nil {
 					for _, c := range fd.Doc.List {
 						t := strings.TrimSpace(strings.TrimPrefix(c.Text, "//"))
@@ -266,6 +267,18 @@ func (w *World) load() error {
 								h.Expect = v
 							case "strlen":
 								h.StrLen = n
+							case "tstrlen": // thorough-tier overrides
+								if w.tier == "thorough" {
+									tStrLen = n
+								}
+							case "tunwind":
+								if w.tier == "thorough" {
+									tUnwind = n
+								}
+							case "tpaths":
+								if w.tier == "thorough" {
+									tPaths = n
+								}
 							case "stagea":
 								h.StageATimeout = n
 							case "upgrade":
@@ -294,6 +307,18 @@ func (w *World) load() error {
 							}
 						}
 					}
+				}
+				if tStrLen > 0 {
+					h.StrLen = tStrLen
+				}
+				if tUnwind > 0 {
+					h.Unwind = tUnwind
+				}
+				if tPaths > 0 {
+					h.MaxPaths = tPaths
+				}
+				if add, _ := strconv.Atoi(os.Getenv("VERIF_STRLEN_ADD")); add > 0 {
+					h.StrLen += add
 				}
 				h.Fn = sp.Func(fd.Name.Name)
 				if h.Fn == nil {
